@@ -24,7 +24,10 @@
 #include <algorithm>
 #include <map>
 #include <memory>
+#include <dirent.h>
+#include <fcntl.h>
 #include <poll.h>
+#include <sys/resource.h>
 #include <set>
 #include <sys/mman.h>
 #include <sys/wait.h>
@@ -846,8 +849,64 @@ struct exec_result
     std::vector<sched::u64> hashes; // 'H' (sequential part)
 };
 
+// "hung" must not depend on how busy the machine is: a child that merely waits for a cpu is not hung.
+//  * spinning: RLIMIT_CPU in the child (cpu time of the whole process; a normal execution needs ~1 ms) -> SIGXCPU
+//  * blocked : every 5 s without data on the pipe the parent reads /proc/<pid>/task/*/stat; the child counts as blocked only if NO
+//    thread is runnable (state R) or in the kernel (D) AND its cpu time has not advanced, for `blocked_slices` consecutive looks
+//  There is no wall-clock limit at all.
+struct child_limits
+{
+    int cpu_s          = 20;
+    int blocked_slices = 4; // x 5 s
+};
+static long g_timeouts_not_reproduced = 0, g_timeout_candidates = 0;
+
+// returns false if the process is gone; alive = some thread runnable / in kernel; cpu = utime+stime ticks of all threads
+static bool child_activity(pid_t pid, bool& alive, unsigned long long& cpu)
+{
+    alive = false;
+    cpu   = 0;
+    char path[64];
+    std::snprintf(path, sizeof path, "/proc/%d/task", int(pid));
+    bool any = false;
+    DIR* d = opendir(path);
+    if (!d)
+        return false;
+    while (dirent* e = readdir(d))
+    {
+        if (e->d_name[0] < '0' || e->d_name[0] > '9')
+            continue;
+        char sp[128];
+        std::snprintf(sp, sizeof sp, "/proc/%d/task/%s/stat", int(pid), e->d_name);
+        int fd = open(sp, O_RDONLY | O_CLOEXEC);
+        if (fd < 0)
+            continue;
+        char    b[1024];
+        ssize_t n = read(fd, b, sizeof b - 1);
+        close(fd);
+        if (n <= 0)
+            continue;
+        b[n]      = 0;
+        char* r = std::strrchr(b, ')');
+        if (!r)
+            continue;
+        any = true;
+        char               st = 0;
+        unsigned long long ut = 0, stt = 0;
+        // after ") ": state ppid pgrp session tty tpgid flags minflt cminflt majflt cmajflt utime stime
+        if (std::sscanf(r + 1, " %c %*d %*d %*d %*d %*d %*u %*u %*u %*u %*u %llu %llu", &st, &ut, &stt) >= 1)
+        {
+            if (st == 'R' || st == 'D')
+                alive = true;
+            cpu += ut + stt;
+        }
+    }
+    closedir(d);
+    return any;
+}
+
 template <class Body>
-static exec_result in_child(Body body, int timeout_ms = 20000)
+static exec_result in_child_once(Body body, child_limits lim)
 {
     exec_result er;
     int         fd[2];
@@ -857,7 +916,14 @@ static exec_result in_child(Body body, int timeout_ms = 20000)
         std::_Exit(74);
     }
     std::fflush(nullptr);
-    pid_t pid = fork();
+    pid_t pid = -1;
+    for (int attempt = 0; attempt < 200; ++attempt) // a loaded machine may be out of processes for a moment
+    {
+        pid = fork();
+        if (pid >= 0 || (errno != EAGAIN && errno != ENOMEM))
+            break;
+        usleep(100000);
+    }
     if (pid < 0)
     {
         std::perror("fork");
@@ -868,31 +934,60 @@ static exec_result in_child(Body body, int timeout_ms = 20000)
         close(fd[0]);
         g_fd       = fd[1];
         g_is_child = true;
+        rlimit rl;
+        rl.rlim_cur = rlim_t(lim.cpu_s);
+        rl.rlim_max = rlim_t(lim.cpu_s + 5);
+        setrlimit(RLIMIT_CPU, &rl);
         body();
         _exit(99);
     }
     close(fd[1]);
-    std::string buf;
-    double      t0 = now_s();
+    std::string        buf;
+    int                blocked = 0;
+    unsigned long long last_cpu = ~0ull;
     for (;;)
     {
         pollfd pf{fd[0], POLLIN, 0};
-        int    left = timeout_ms - int((now_s() - t0) * 1000);
-        if (left <= 0 || poll(&pf, 1, left) <= 0)
+        int    rc = poll(&pf, 1, 5000);
+        if (rc < 0)
         {
-            er.timed_out = true;
+            if (errno == EINTR)
+                continue;
             break;
+        }
+        if (rc == 0)
+        {
+            bool               alive = false;
+            unsigned long long cpu   = 0;
+            if (!child_activity(pid, alive, cpu))
+                alive = true; // cannot tell: never call that a hang
+            if (alive || cpu != last_cpu)
+                blocked = 0;
+            else if (++blocked >= lim.blocked_slices)
+            {
+                er.timed_out = true;
+                break;
+            }
+            last_cpu = cpu;
+            continue;
         }
         char    tmp[65536];
         ssize_t n = read(fd[0], tmp, sizeof tmp);
+        if (n < 0 && errno == EINTR)
+            continue;
         if (n <= 0)
             break;
+        blocked = 0;
         buf.append(tmp, std::size_t(n));
     }
     close(fd[0]);
     if (er.timed_out)
         kill(pid, SIGKILL);
-    waitpid(pid, &er.status, 0);
+    while (waitpid(pid, &er.status, 0) < 0 && errno == EINTR)
+    {
+    }
+    if (!er.timed_out && WIFSIGNALED(er.status) && WTERMSIG(er.status) == SIGXCPU)
+        er.timed_out = true; // cpu limit: the child spins
     // parse
     std::size_t o = 0;
     while (o + 8 <= buf.size())
@@ -954,6 +1049,31 @@ static exec_result in_child(Body body, int timeout_ms = 20000)
     return er;
 }
 
+// a candidate hang is re-run alone up to 3 times with 10x larger limits; it is a hang only if it hangs every time.
+// A candidate that does not reproduce is an observation (counted), never a verdict and never a harness error.
+template <class Body>
+static exec_result in_child(Body body, child_limits lim = child_limits())
+{
+    exec_result er = in_child_once(body, lim);
+    if (!er.timed_out)
+        return er;
+    ++g_timeout_candidates;
+    child_limits big;
+    big.cpu_s          = lim.cpu_s * 10;
+    big.blocked_slices = lim.blocked_slices * 10;
+    for (int k = 0; k < 3; ++k)
+    {
+        exec_result e2 = in_child_once(body, big);
+        if (!e2.timed_out)
+        {
+            ++g_timeouts_not_reproduced;
+            return e2;
+        }
+        er = e2;
+    }
+    return er;
+}
+
 static void add_v(std::vector<violation>& v, const std::string& tag, const std::string& detail)
 {
     for (auto& x : v)
@@ -967,7 +1087,7 @@ static std::vector<violation> judge(const exec_result& er, bool conc, std::vecto
 {
     std::vector<violation> v = er.v;
     if (er.timed_out)
-        add_v(v, "hang", "the execution did not finish within the time limit (a thread spins or blocks outside any scheduling point)");
+        add_v(v, "hang", "the execution does not end: the process used up its cpu-time limit or all its threads stay blocked without any being runnable (4 runs, the last 3 with 10x limits)");
     bool reached_exit = false;
     if (conc)
     {
@@ -1267,7 +1387,6 @@ static int conc_replay(const std::string& js)
         sched::explore_options eo;
         eo.max_preemptions = 3;
         eo.max_steps       = 400;
-        eo.deadline        = now_s() + 300;
         sched::explorer ex(eo);
         sched::item     it;
         bool            found = false;
@@ -1322,7 +1441,16 @@ static int conc_main(const argmap& a)
     long        part = 0, parts = 1;
     if (a.has("part"))
         std::sscanf(a.s("part").c_str(), "%ld/%ld", &part, &parts);
-    double                deadline = t0 + double(a.n("time_s", thorough ? 1000 : 90));
+    // runaway guard in CPU time of this worker and its children (load independent; a slice needs 30 s quick / 400 s thorough)
+    double cpu_budget = double(a.n("cpu_s", thorough ? 20000 : 3000));
+    auto   cpu_used   = [] {
+        rusage a_, b_;
+        getrusage(RUSAGE_SELF, &a_);
+        getrusage(RUSAGE_CHILDREN, &b_);
+        auto tv = [](const timeval& t) { return double(t.tv_sec) + double(t.tv_usec) * 1e-6; };
+        return tv(a_.ru_utime) + tv(a_.ru_stime) + tv(b_.ru_utime) + tv(b_.ru_stime);
+    };
+    bool over_budget = false;
     std::set<std::string> tolerate;
     {
         std::string t = a.s("tolerate", "");
@@ -1363,12 +1491,16 @@ static int conc_main(const argmap& a)
         sched::explore_options eo;
         eo.max_preemptions = bound;
         eo.max_steps       = 400;
-        eo.deadline        = deadline;
         sched::explorer ex(eo);
         sched::item     it;
         bool            stopped_on_violation = false, sampled = false;
         while (ex.next(it))
         {
+            if ((ex.stats().executions & 255) == 0 && cpu_used() > cpu_budget)
+            {
+                over_budget = true;
+                break;
+            }
             exec_result er = in_child([&] { child_conc(p, it.choices); });
             std::vector<std::string> herr;
             auto                     v = judge(er, true, herr);
@@ -1468,8 +1600,8 @@ static int conc_main(const argmap& a)
             all_finished  = false;
             min_completed = std::min(min_completed, st.completed_bound);
             if (herr_list.size() < 20)
-                herr_list.push_back(prog_str(p) + ": enumeration not finished: " + (st.stop_reason.empty() ? "child failure" : st.stop_reason));
-            if (st.stop_reason == "deadline")
+                herr_list.push_back(prog_str(p) + ": enumeration not finished: " + (over_budget ? "cpu-time budget of the worker used up" : (st.stop_reason.empty() ? "child failure" : st.stop_reason)));
+            if (over_budget)
                 break;
         }
         if (violating_programs >= 5)
@@ -1511,6 +1643,8 @@ static int conc_main(const argmap& a)
         .raw("violating_programs_by_tag", vc.done())
         .raw("tolerated_known_findings_by_tag", tc.done())
         .dbl("executions_per_s", wall > 0 ? double(executions) / wall : 0)
+        .num("timeout_candidates", g_timeout_candidates)
+        .num("timeouts_not_reproduced", g_timeouts_not_reproduced)
         .num("pinned_cpu", cpu)
         .num("threads", n)
         .num("max_steps_per_thread", L)
@@ -1789,6 +1923,8 @@ static int seq_main(const argmap& a)
     if (a.has("part"))
         std::sscanf(a.s("part").c_str(), "%ld/%ld", &part, &parts);
     const std::size_t BATCH = 1000;
+    child_limits      batch_limits;
+    batch_limits.cpu_s = 120; // 1000 sequences need well under 1 s of cpu time
 
     std::vector<std::vector<int>> all;
     std::vector<int>              cur;
@@ -1846,7 +1982,7 @@ static int seq_main(const argmap& a)
                 g_exit_record = true;
                 std::exit(0);
             },
-            120000);
+            batch_limits);
         std::vector<std::string> herr;
         auto                     v = judge(er, false, herr);
         long                     done = *progress;
@@ -1922,6 +2058,8 @@ static int seq_main(const argmap& a)
         .num("depth", D)
         .num("fresh_depth", F)
         .num("temporary_stack_mode", TSM)
+        .num("timeout_candidates", g_timeout_candidates)
+        .num("timeouts_not_reproduced", g_timeouts_not_reproduced)
         .raw("counters", counters_json(tot))
         .raw("violating_by_tag", vc.done())
         .str("part", "seq");
@@ -1962,6 +2100,36 @@ int main(int argc, char** argv)
             std::printf("the concurrent part needs temporary stack mode 2\n");
 #endif
         }
+    }
+    else if (a.has("selftest-hang")) // manual test of the hang classification: spin | block | slow (slow must NOT be a hang)
+    {
+        std::string  m = a.s("selftest-hang");
+        child_limits lim;
+        lim.cpu_s          = 1;
+        lim.blocked_slices = 1;
+        double      t0 = now_s();
+        exec_result er = in_child(
+            [&] {
+                if (m == "spin")
+                    for (volatile unsigned long i = 0;; ++i)
+                    {
+                    }
+                if (m == "block")
+                    sched::detail::park_forever();
+                if (m == "slow") // sleeps 12 s in short naps: blocked at every look, but its cpu time advances
+                    for (int i = 0; i < 1200; ++i)
+                    {
+                        for (volatile unsigned long k = 0; k < 3000000; ++k)
+                        {
+                        }
+                        usleep(10000);
+                    }
+                _exit(0);
+            },
+            lim);
+        std::printf("%s: classified as %s after %.1f s (candidates %ld, not reproduced %ld)\n", m.c_str(), er.timed_out ? "HANG" : "not hung",
+                    now_s() - t0, g_timeout_candidates, g_timeouts_not_reproduced);
+        rc = er.timed_out ? 1 : 0;
     }
     else if (a.has("seq"))
         rc = seq_main(a);
